@@ -28,6 +28,18 @@ deriving DecidableEq, Repr
 
 abbrev Ladder := List (List Cls × Action)
 
+/-- a statement inside an `if log_traffic:` block, as classified by the translator -/
+inductive LogStmt where
+  | safe               -- `_LOGGER_TRAFFIC_UPNP.debug(fmt, <names / header join / x or "">)`: cannot raise
+  | decodeStrictBody   -- an argument `resp_body.decode()`: raises UnicodeDecodeError on a non-UTF-8 body
+deriving DecidableEq, Repr
+
+/-- the two traffic-logging blocks of a requester: before the try (request), inside it (response) -/
+structure LogBlock where
+  pre : List LogStmt
+  post : List LogStmt
+deriving DecidableEq, Repr
+
 structure Tables where
   supers : List (List Cls)
   plain : Ladder
@@ -36,6 +48,9 @@ structure Tables where
   final : Ladder
   retries : Nat
   transport : List Cls
+  logPlain : LogBlock
+  logInner : LogBlock
+  cUnicodeDecode : Cls
   cTimeout : Cls
   cClientConn : Cls
   cClientResp : Cls
@@ -113,6 +128,26 @@ def request {ρ : Type} (T : Tables) (session : Bool) (outs : List (Exch ρ)) : 
   else match outs with
     | [] => (.swallowed, 0)
     | o :: _ => (plainRequest T o, 1)
+
+/-! ### traffic logging (`log_traffic = _LOGGER_TRAFFIC_UPNP.isEnabledFor(logging.DEBUG)`) -/
+
+/-- what the response-logging block does to a successful exchange when logging is on: the exchange
+    turns into the exception a logging statement raises inside the try (then the ladder applies) -/
+def logFault (T : Tables) (blk : LogBlock) (utf8ok : Bool) : Option Cls :=
+  if blk.post.contains .decodeStrictBody && !utf8ok then some T.cUnicodeDecode else none
+
+def withLog {ρ : Type} (T : Tables) (blk : LogBlock) (log : Bool) (utf8 : ρ → Bool) : Exch ρ → Exch ρ
+  | .ok r => if log then (match logFault T blk (utf8 r) with | some c => .exc c none | none => .ok r) else .ok r
+  | e => e
+
+/-- a request with the traffic logger at DEBUG (`log = true`) or not; `utf8 r` = the body bytes of response
+    `r` are valid UTF-8 -/
+def requestL {ρ : Type} (T : Tables) (session log : Bool) (utf8 : ρ → Bool) (outs : List (Exch ρ)) : LRes ρ × Nat :=
+  request T session (outs.map (withLog T (if session then T.logInner else T.logPlain) log utf8))
+
+/-- every statement of every logging block is of the kind that cannot raise -/
+def logSafe (T : Tables) : Bool :=
+  (T.logPlain.pre ++ T.logPlain.post ++ T.logInner.pre ++ T.logInner.post).all (· == .safe)
 
 /-! ### Host header -/
 
